@@ -449,6 +449,18 @@ package core
 //@   unclaimed #nil-deref@ see above
 //@   unclaimed #type-assert see above
 
+// ---------------------------------------------------------------- a type reference in a Path body stays flat (C13 "a Path body that is not a flat object is rejected")
+// A user type named as the type of a Path property is accepted only if it is declared and is a scalar JSight type
+// (string, number, boolean, null) or a regex: an object, an array or a further reference is refused.
+//@ pred scalarTok(t string) = t == "string" || t == "number" || t == "boolean" || t == "null"
+//@ func (*JApiCore).appendUsedUserType
+//@   tag C13 C01
+//@   requires core != nil && core.catalog != nil && core.catalog.UserTypes != nil && core.catalog.UserTypes.mx == 0 && RepInvStringSet(usedUserTypes) && usedUserTypes.mx == 0
+//@   requires forall k string :: has(core.catalog.UserTypes.data, k) ==> core.catalog.UserTypes.data[k] != nil && (core.catalog.UserTypes.data[k].Schema.Notation == "jsight" ==> core.catalog.UserTypes.data[k].Schema.ContentJSight != nil)
+//@   ensures [C13] isnil(ret) ==> old(has(core.catalog.UserTypes.data, s)) && (old(core.catalog.UserTypes.data[s].Schema.Notation) == "regex"
+//@              || (old(core.catalog.UserTypes.data[s].Schema.Notation) == "jsight" && scalarTok(old(core.catalog.UserTypes.data[s].Schema.ContentJSight.TokenType))))
+//@   ensures [C13] isnil(ret) ==> has(usedUserTypes.data, s)
+
 // ---------------------------------------------------------------- used user types exist (C09 "every used user type named anywhere exists")
 // findUserTypes accepts a set of names only if every one of them is a declared user type; it changes neither table.
 //@ func (*JApiCore).findUserTypes
